@@ -25,7 +25,6 @@ NReg == 3
 Ev == TraceLog[l]
 Has(k) == k \in DOMAIN Ev
 REFUSED == -2000000000          \* wrapper events: the call threw
-B01(x) == IF x THEN 1 ELSE 0
 
 Bad(kind) == PrintT(ToJson([bad |-> l, kind |-> kind, ev |-> Ev]))
 \* pre: what the harness promised about the input (a failure is a harness problem, not a verdict about the library)
@@ -82,46 +81,27 @@ IpPost == /\ Ev.ret = B01(DistinctMod(Ev.a, Ev.q))
           /\ Ev.ret = 1 => Interpolates(Ev.f, Ev.a, Ev.b, Ev.q) /\ Reduced(Ev.f, Ev.q)
 
 --------------------------------------------------------------------------
-(* the wrapper: one register file over Z                                    *)
-BaseOp(op) == CASE op \in {"set", "set_ui"} -> "set"
-                [] op \in {"add", "add_ui"} -> "add"
-                [] op \in {"sub", "sub_ui"} -> "sub"
-                [] op \in {"mul", "mul_ui"} -> "mul"
-                [] op \in {"div", "div_ui"} -> "div"
-                [] op \in {"mod", "mod_ui"} -> "mod"
-                [] op \in {"powm", "powm_ui"} -> "powm"
-                [] OTHER -> op
-RegOperand == {"set", "add", "sub", "mul", "div", "mod"}
-PlainOnly == {"div_ui", "div2exp"}          \* the secure back end documents these as unsupported: it may refuse
-Updating == {"set", "set_ui", "add", "add_ui", "sub", "sub_ui", "mul", "mul_ui", "div", "div_ui", "mod", "mod_ui",
-             "neg", "abs", "mul2exp", "div2exp", "powm", "powm_ui"}
-BigX == IF Ev.op \in {"powm", "powm_ui"} THEN regs[Ev.s] ELSE regs[Ev.d]
-BigY == IF Ev.op \in RegOperand THEN regs[Ev.s]
-        ELSE IF Ev.op = "powm" THEN regs[Ev.t]
-        ELSE Ev.u
-BigZ == regs[Ev.d]
-BigNew == BigVal(BaseOp(Ev.op), BigX, BigY, BigZ)
-RegsAfter == IF Ev.op \in Updating THEN [regs EXCEPT ![Ev.d] = BigNew] ELSE regs
+(* the wrapper: one register file over Z; Ev itself is the operation instance *)
+RegsAfter == OpAfter(Ev, regs)
 SameRegs(logged, r) == \A i \in 0..(NReg - 1) : logged[i + 1] = r[i]
-BigPre == Ev.op \in Updating => BigDefined(BaseOp(Ev.op), BigX, BigY, BigZ)
+Logged(seq) == [i \in 0..(NReg - 1) |-> seq[i + 1]]
+BigPre == OpDefined(Ev, regs)
 BigPost ==
   LET x == regs[Ev.d] IN
-  CASE Ev.op \in Updating ->
-         /\ Ev.pv = BigNew
-         /\ (Ev.sv = BigNew \/ (Ev.op \in PlainOnly /\ Ev.sv = REFUSED))
+  CASE Ev.op \in UpdatingOps ->
+         /\ Ev.pv = OpValue(Ev, regs)
+         /\ (Ev.sv = OpValue(Ev, regs) \/ (Ev.op \in PlainOnlyOps /\ Ev.sv = REFUSED))
          /\ SameRegs(Ev.pr, RegsAfter) /\ SameRegs(Ev.sr, RegsAfter)
     [] Ev.op = "cmp" ->
-         LET c == Cmp(x, regs[Ev.s])
-             want == <<B01(c = 0), B01(c # 0), B01(c > 0), B01(c < 0), B01(c >= 0), B01(c <= 0)>>
-         IN Ev.pc = want /\ Ev.sc = want /\ SameRegs(Ev.pr, regs) /\ SameRegs(Ev.sr, regs)
+         /\ Ev.pc = CmpWant(x, regs[Ev.s]) /\ Ev.sc = CmpWant(x, regs[Ev.s])
+         /\ SameRegs(Ev.pr, regs) /\ SameRegs(Ev.sr, regs)
     [] Ev.op = "obs" ->
-         LET c == Cmp(x, Ev.u)
-             want == <<B01(c > 0), B01(c < 0), B01(c >= 0), B01(c <= 0), B01(c = 0)>>
+         LET want == ObsWant(x, Ev.u)
          IN /\ Ev.pc = want
             /\ \A i \in 1..4 : Ev.sc[i] = want[i]
             /\ Ev.sc[5] \in {want[5], -1}               \* equality with a word is refused on secret values
             /\ Ev.psz = Bits(Abs(x)) /\ Ev.ssz = Bits(Abs(x))
-            /\ x >= 0 => (Ev.pui = x /\ Ev.sui = x /\ Ev.ppr = B01(IsPrime(x)))
+            /\ Ev.pui = x /\ Ev.sui = x /\ Ev.ppr = B01(IsPrime(x))
             /\ SameRegs(Ev.pr, regs) /\ SameRegs(Ev.sr, regs)
     [] OTHER -> FALSE
 
@@ -137,6 +117,12 @@ Step ==
     [] Ev.e = "sqrtn" -> Judge(SqrtnPre, SqrtnPost) /\ UNCHANGED <<regs, live>>
     [] Ev.e = "ip"    -> Judge(IpPre, IpPost) /\ UNCHANGED <<regs, live>>
     [] Ev.e = "big"   -> IF ~live THEN UNCHANGED <<regs, live, nbad>>
+                         ELSE IF ~InProperty(Ev, regs)
+                         THEN \* a negative operand: outside the property, not judged; the logged registers are adopted
+                              \* if both back ends still agree, otherwise the rest of the execution is skipped
+                              /\ nbad' = nbad
+                              /\ live' = (Ev.pr = Ev.sr)
+                              /\ regs' = IF Ev.pr = Ev.sr THEN Logged(Ev.pr) ELSE regs
                          ELSE /\ Judge(BigPre, BigPost)
                               /\ live' = (BigPre /\ BigPost)
                               /\ regs' = IF BigPre /\ BigPost THEN RegsAfter ELSE regs
